@@ -1,8 +1,116 @@
+(* C04 — an agent crash at any point never yields a wrong cached blob.
+   Statements only; every proof is `exact <lemma of the C04 proof files>`.
+   Model: K.Model.C04 (fixed code: fixes/C04_status_length.patch + fixes/C04_undecodable_metainfo.patch;
+   `unfixed c` = the pinned code).  DIb = the disk invariant (cache file = blob; download file no longer
+   than the blob; the status vector is empty or one entry per piece and every marked piece holds the
+   blob's bytes).  all_DI c s tr = DIb at EVERY crash point (prefix) of the call trace tr.
+   PARTIAL: the induction "every operation of every history keeps DIb at each of its calls" is not
+   proved; it is evaluated on every generated history by Run/C04_run.v (`all_DI` inside `agrees`). *)
 From Coq Require Import List NArith Bool Arith.
 From K.Model Require Import C04.
-From K.Proof Require C04.
+From K.Proof Require C04_base C04_inv C04_ops C04.
 Import ListNotations.
 
-Theorem C04_placeholder : apply_calls fs0 [] = fs0.
-Proof. exact Proof.C04.placeholder. Qed.
-Print Assumptions C04_placeholder.
+(* crash at any point k of a trace whose crash points satisfy the invariant: the cache file, if there
+   is one (= what the agent serves), is the blob *)
+Theorem C04_crash_safe_partial : forall c tr k d,
+  wf_cfg c = true -> all_DI c fs0 tr = true ->
+  d_data (ca (crash_at fs0 tr k)) = Some d -> d = c_blob c.
+Proof. exact C04.crash_safe_partial. Qed.
+Print Assumptions C04_crash_safe_partial.
+
+(* ... and the file a restarted NewTorrent (torrent.go:68, with the length check of the fix) decides
+   to commit — every entry of the restored status vector complete — is the blob *)
+Theorem C04_commit_after_crash_partial : forall c tr k d b,
+  wf_cfg c = true -> all_DI c fs0 tr = true ->
+  let s := crash_at fs0 tr k in
+  d_data (dl s) = Some d -> d_status (dl s) = Some b -> length b = npieces c ->
+  count_true (deser_status b) = length (deser_status b) -> d = c_blob c.
+Proof. exact C04.commit_after_crash_partial. Qed.
+Print Assumptions C04_commit_after_crash_partial.
+
+(* every crash point = every prefix of the mutating calls *)
+Theorem C04_every_crash_point : forall c tr s k,
+  all_DI c s tr = true -> DIb c (crash_at s tr k) = true.
+Proof. exact C04_inv.all_DI_prefix. Qed.
+Print Assumptions C04_every_crash_point.
+
+(* a piece a recovered torrent would serve to peers (marked complete on disk) holds the blob's bytes *)
+Theorem C04_served_piece_is_blob : forall c s d b i,
+  DIb c s = true -> d_data (dl s) = Some d -> d_status (dl s) = Some b ->
+  i < npieces c -> nth i (deser_status b) false = true ->
+  region c d i = region c (c_blob c) i.
+Proof. exact C04_ops.marked_piece_is_blob. Qed.
+Print Assumptions C04_served_piece_is_blob.
+
+(* mechanism "status byte written only after the piece data": a data write inside a piece the status
+   vector does not mark keeps the invariant, whatever is written and wherever the process stops ... *)
+Theorem C04_data_write_keeps_invariant : forall c, wf_cfg c = true -> forall s d b off x i,
+  DIb c s = true -> d_data (dl s) = Some d -> d_status (dl s) = Some b ->
+  i < npieces c -> nth i b 0%N <> 1%N ->
+  poff c i <= off -> off + length x <= poff c i + plen c i ->
+  DIb c (apply_call s (CWrite ADl FData off x)) = true.
+Proof. exact C04_ops.data_write_keeps_DI. Qed.
+Print Assumptions C04_data_write_keeps_invariant.
+
+(* ... and the status byte may be written once the piece's bytes are the blob's *)
+Theorem C04_mark_keeps_invariant : forall c s d b i,
+  DIb c s = true -> d_data (dl s) = Some d -> d_status (dl s) = Some b ->
+  length b = npieces c -> i < npieces c -> region c d i = region c (c_blob c) i ->
+  DIb c (apply_call s (CWrite ADl FStatus i [1%N])) = true.
+Proof. exact C04_ops.mark_keeps_DI. Qed.
+Print Assumptions C04_mark_keeps_invariant.
+
+(* the commit point: renaming a download file that is the blob keeps the invariant *)
+Theorem C04_rename_keeps_invariant : forall c s,
+  DIb c s = true -> d_data (dl s) = Some (c_blob c) -> DIb c (apply_call s CRename) = true.
+Proof. exact C04_ops.rename_keeps_DI. Qed.
+Print Assumptions C04_rename_keeps_invariant.
+
+(* directory creation, last-access-time and metainfo sidecars, every cache-side sidecar copy and
+   removal: any sequence of such calls, stopped anywhere, keeps the invariant *)
+Theorem C04_sidecar_calls_keep_invariant : forall c cs s,
+  forallb C04_inv.benign cs = true -> DIb c s = true -> all_DI c s cs = true.
+Proof. exact C04_inv.benign_calls_DI. Qed.
+Print Assumptions C04_sidecar_calls_keep_invariant.
+
+(* a file no longer than the blob whose every piece is the blob's piece is the blob (why a fully
+   marked, truthful status vector justifies the commit) *)
+Theorem C04_all_pieces_blob : forall c, 0 < c_pl c -> forall f, length f <= blen c ->
+  (forall i, i < npieces c -> region c f i = region c (c_blob c) i) -> f = c_blob c.
+Proof. exact C04_base.all_pieces_blob. Qed.
+Print Assumptions C04_all_pieces_blob.
+
+(* the pinned code violates the property: crash between the creation and the first write of `_status` *)
+Theorem C04_empty_status_refuted : exists c ops k, wf_cfg c = true /\
+  let o := recover (unfixed c) (crash_at fs0 (download_trace (unfixed c) ops) k) in
+  o_out o = OOk /\ o_complete o = true /\ o_cache o <> Some (c_blob c).
+Proof. exact C04.empty_status_refuted. Qed.
+Print Assumptions C04_empty_status_refuted.
+
+(* ... and between the creation and the write of `_torrentmeta`: CreateTorrent fails, again and again *)
+Theorem C04_empty_metainfo_refuted : exists c ops k, wf_cfg c = true /\
+  let s := crash_at fs0 (download_trace (unfixed c) ops) k in
+  o_out (recover (unfixed c) s) = OErr /\ o_out (recover (unfixed c) (recovered_fs (unfixed c) s)) = OErr.
+Proof. exact C04.empty_metainfo_refuted. Qed.
+Print Assumptions C04_empty_metainfo_refuted.
+
+(* the fixed code at the same two crash points: CreateTorrent succeeds, nothing is reported complete *)
+Theorem C04_fixed_at_witnesses :
+  let tr := download_trace C04.wc [OCreate [] []] in
+  (let o := recover C04.wc (crash_at fs0 tr 10) in o_out o = OOk /\ o_complete o = false /\ o_cache o = None) /\
+  (let o := recover C04.wc (crash_at fs0 tr 8) in o_out o = OOk /\ o_complete o = false /\ o_cache o = None).
+Proof. exact C04.fixed_at_witnesses. Qed.
+Print Assumptions C04_fixed_at_witnesses.
+
+(* non-vacuity: a complete download (CreateTorrent, pieces 2 0 1, chunked writes) on the fixed model:
+   its 33-call trace satisfies the hypothesis of the partial theorems, and at EVERY one of its crash
+   points the recovery is safe and the restarted download completes with the blob cached *)
+Example C04_nonvacuous_download :
+  let c := mkcfg [97; 98; 99; 100; 101; 102; 103]%N 3 2 [123; 125]%N [1]%N true true in
+  let ops := [OCreate [] []; OWrite 2 [103]%N [] []; OWrite 0 [97; 98; 99]%N [] []; OWrite 1 [100; 101; 102]%N [FStatus] [FMeta]] in
+  let tr := download_trace c ops in
+  wf_cfg c = true /\ length tr = 33 /\ all_DI c fs0 tr = true /\
+  d_data (ca (crash_at fs0 tr 33)) = Some (c_blob c) /\
+  sweep_ok c tr [2; 1; 0] = true.
+Proof. vm_compute. repeat split; reflexivity. Qed.
